@@ -6,7 +6,7 @@
 (*   kind \in {"unit","empty_tuple","empty_brace","tuple1","named1"}       *)
 (*   disc : [op |-> "none"] or an expression tree                                 *)
 (*            [op |-> "lit", a |-> n]  | "neg"(a) | "shl"(a,b) | "or"(a,b) *)
-(*            | "add"(a,b)        (a, b small naturals)                    *)
+(*            | "add"(a,b) | "bnot"(a)   (a, b small naturals)             *)
 (* Doc : Rust's discriminant rule (explicit value, else previous + 1,      *)
 (*       counting variants with fields), try_from(n) = the field-less      *)
 (*       variant with that discriminant.                                   *)
@@ -32,12 +32,15 @@ Eval(e) == CASE e.op = "lit" -> e.a
              [] e.op = "shl" -> e.a * Pow2(e.b)
              [] e.op = "or"  -> BitOr(e.a, e.b)
              [] e.op = "add" -> e.a + e.b
+             [] e.op = "bnot" -> 0 - e.a - 1          \* `!a` in a SIGNED repr type (two's complement); MC_TryFromRepr only
+                                                      \* pairs it with signed reprs - the unsigned ones are a generated family
 \* the value of the token text `<e> + k` under Rust's operator precedence
 \* (unary minus > + > << > |)
 EvalTextPlus(e, k) ==
     CASE e.op = "lit" -> e.a + k
       [] e.op = "neg" -> (0 - e.a) + k
       [] e.op = "add" -> e.a + e.b + k
+      [] e.op = "bnot" -> (0 - e.a - 1) + k         \* unary `!` binds tighter than `+`
       [] e.op = "shl" -> e.a * Pow2(e.b + k)        \* a << (b + k)
       [] e.op = "or"  -> BitOr(e.a, e.b + k)        \* a | (b + k)
 
